@@ -168,6 +168,19 @@ func init() {
 		})
 	}
 	p.Strata = append(p.Strata, mon.Stratum{
+		Name: "path-rendering-collisions",
+		N:    qt(3000, 60000),
+		Run: func(c *mon.Ctx, i int) {
+			r := c.R
+			t1, t2 := gen.Pick(r, []string{"a", "b", "f", "x"}), gen.Pick(r, []string{"a", "b", "k", "y"})
+			sep := gen.Pick(r, []string{" ", "/", ",", ".", "~1", "~"})
+			v, w := gen.Scalar(r, gen.PTiny), gen.Scalar(r, gen.PTiny)
+			a := map[string]any{t1: map[string]any{t2: v}, t1 + sep + t2: []any{v, 1.0}}
+			b := map[string]any{t1: map[string]any{t2: w}, t1 + sep + t2: []any{w, 1.0, 2.0}}
+			c09Case(c, ref.ToJSON(a), ref.ToJSON(b), gen.PTiny)
+		},
+	})
+	p.Strata = append(p.Strata, mon.Stratum{
 		Name:       "fuzz-corpus",
 		N:          n(len(FuzzCorpus) * len(FuzzCorpus)),
 		Exhaustive: always,
